@@ -60,6 +60,19 @@ def call(pts, tol, mode):
         # whole coordinates are handed over as Python ints in a third of these calls (ENUCoords(3, 4, 0) is what users write)
         cf = (lambda v: int(v)) if sc == 1.0 and len(pts) % 3 == 0 else (lambda v: float(v) * sc)
         tr = Track([Obs(ENUCoords(cf(p[0]), cf(p[1]), ztag(k)), ObsTime.readUnixTime(t0 + k)) for k, p in enumerate(pts)])
+        if len(pts) >= 4 and (len(pts) + int(sum(p[1] for p in pts))) % 2 == 0:
+            # history: the track was simplified when it was two fixes shorter (a receiver that keeps logging); the fixes added
+            # since are ordinary fixes (built by the caller, appended with addObs)
+            e["hist"] = "simplified before, two fixes appended since"
+            allobs = list(tr.getObsList())
+            tr = Track(allobs[:-2])
+            try:
+                with core.quiet():
+                    simplify(tr, float(tol) * sc, md)
+            except (Exception, SystemExit):
+                pass
+            tr.addObs(allobs[-2])
+            tr.addObs(allobs[-1])
     try:
         with core.quiet():
             out = simplify(tr, int(tol) if tol.denominator == 1 and len(pts) % 2 and sc == 1.0 else float(tol) * sc, md)
